@@ -186,8 +186,9 @@ def check_spec(spec: NetSpec, label, st: Stats, plan):
         outs = spec.out_links(node)
         if len(outs) < 2:
             continue
-        # share
-        for (vl, v), ref in zip(vecs, base):
+        # share: NumPy results and (same vectors come first in dvecs) the compiled SX function
+        sx_as_np = [{("L%d" % m, "rho"): [r[("x+", "L%d" % m, "rho", 0)]] for m in outs} for r in base_sx[:1]]
+        for (vl, v), ref in list(zip(vecs, base)) + list(zip([(dvecs[0][0] + " (SX)", dvecs[0][1])], sx_as_np)):
             q0 = {}
             for m in outs:
                 l = spec.links[m]
@@ -202,6 +203,26 @@ def check_spec(spec: NetSpec, label, st: Stats, plan):
                                      f"node {node}: link L{m} receives share {q0[m] / tot!r} of the inflow, turn rates give "
                                      f"{spec.links[m].beta / bsum!r} at {vl}", dict(case0, node=node)))
                     break
+        # turn rates given as 0-d NumPy arrays instead of plain numbers (a legal way of passing them): same results,
+        # also on a second step of the same objects, and the arrays are left untouched
+        st.inc("scalings")
+        try:
+            ov = {(f"L{m}", "beta"): np.array(float(spec.links[m].beta)) for m in outs}
+            keep = {k_: a.copy() for k_, a in ov.items()}
+            b_arr = build(spec, override=ov)
+            for rep in (1, 2):
+                for (vl, v), ref in zip(vecs, base):
+                    got = np_step(spec, v, P, built=b_arr)[0]
+                    st.inc("executions")
+                    msg = nexts_equal(got, ref, 1e-12)
+                    if msg is None and any(float(a) != float(keep[k_]) for k_, a in ov.items()):
+                        msg = f"turn-rate arrays changed to { {k_[0]: float(a) for k_, a in ov.items()} }"
+                    if msg:
+                        problems.append(("C14/array-turnrates/numpy", f"turn rates of node {node} given as 0-d arrays (step {rep} on the "
+                                         f"same objects): {msg} at {vl}", dict(case0, node=node)))
+                        break
+        except Exception as e:  # noqa: BLE001
+            problems.append((f"C14/exception/{exc_site(e)}/{type(e).__name__}", f"array turn rates: {exc_text(e)}", dict(case0, node=node)))
         for f in FACTORS:
             st.inc("scalings")
             sp2 = replace(spec, links=tuple(replace(l, beta=l.beta * f) if l.u == node else l for l in spec.links))
